@@ -104,6 +104,18 @@ func c06Scenario(p c06Params) *explore.Scenario {
 		c.HandleFunc(client.REGISTER, rec("REGISTER"))
 		c.HandleFunc(client.CONNECTED, rec("CONNECTED"))
 		c.HandleFunc(client.DISCONNECTED, rec("DISCONNECTED"))
+		if p.Extra == "close-in-disconnected" {
+			// the client is not connected any more when DISCONNECTED handlers run: Close there does nothing
+			// (and in particular returns)
+			c.HandleFunc(client.DISCONNECTED, func(conn *client.Conn, line *client.Line) {
+				err := conn.Close()
+				vx.Observe("ev", fmt.Sprintf("close-in-handler-ret err=%v", err))
+			})
+			c.HandleBG(client.DISCONNECTED, client.HandlerFunc(func(conn *client.Conn, line *client.Line) {
+				err := conn.Close()
+				vx.Observe("ev", fmt.Sprintf("close-in-bg-handler-ret err=%v", err))
+			}))
+		}
 		var vc *vx.Conn
 		env.ConnSetup = func(x *vx.Conn) {
 			if vc == nil {
@@ -242,6 +254,11 @@ func c06Scenario(p c06Params) *explore.Scenario {
 				if !(second && p.Extra == "reconnect") && strings.HasSuffix(r, "connected=true") {
 					fs = append(fs, explore.Finding{"connected-true-in-disconnected", "Connected() was true inside a DISCONNECTED handler"})
 				}
+			}
+		}
+		if p.Extra == "close-in-disconnected" {
+			if count(ev, "close-in-handler-ret err=<nil>") != connects || count(ev, "close-in-bg-handler-ret err=<nil>") != connects {
+				fs = append(fs, explore.Finding{"close-in-disconnected-handler", "Close called from a DISCONNECTED handler (the client is not connected then) did not return nil once per handler: " + strings.Join(ev, "; ")})
 			}
 		}
 		if p.Extra == "close-then-connect" && len(p.Causes) == 1 {
@@ -495,6 +512,11 @@ func init() {
 			for _, s := range []string{"close", "eof", "writeerr@2", "cancel"} {
 				add(c06Params{Causes: []string{s}, Extra: "reconnect"}, budgets, 25)
 			}
+			// Close called from inside DISCONNECTED handlers (foreground and background)
+			for _, s := range []string{"close", "eof", "writeerr@2", "cancel"} {
+				add(c06Params{Causes: []string{s}, Extra: "close-in-disconnected"}, budgets, 20)
+			}
+			add(c06Params{Causes: []string{"close", "eof"}, Extra: "close-in-disconnected"}, pairBudgets, 20)
 			// Close, then Connect again from the same goroutine
 			for _, c := range cfgs {
 				add(c06Params{Causes: []string{"close"}, Extra: "close-then-connect", Tracking: c.t, Ping: c.p, FloodCtl: c.f, Ctx: c.c}, budgets, 25)
